@@ -6,6 +6,7 @@ import json
 from vlib import *
 
 # inclusive per-limb maxima (even limb, odd limb) per backend and operand class
+THOROUGH_ROUNDS = 4      # repetitions of the conformance part in the thorough tier (fresh random draws each)
 def bounds(backend):
     b = BACKENDS[backend]
     if b["fiat"]:
